@@ -99,11 +99,25 @@ def run(ctx):
             ctx.attempt(f"arm_{v}", fn, ctx, ip, arm)
     # no other body evaluates sub-expressions of the node except builtins on expression references
     callers = set()
+    # a private helper of the evaluator that evaluates sub-expressions itself (`call_function` evaluating the arguments) is
+    # mutually recursive with interpret and therefore not inlined: it counts as the evaluator when interpret is its only caller
+    from ..inline import load_known
+    known = load_known() or set()
+
+    def only_called_by_interpret(d):
+        cs = {x.j.get("closure_root") if x.kind == "closure" and x.j.get("closure_root") else x.deff
+              for x in lib.fn_bodies() for _, t in x.calls() if (t.get("resolved") or t["callee"]) == d or t["callee"] == d}
+        return bool(cs) and cs <= {INTERP, d}
     for b in lib.fn_bodies():
         for bb, t in b.calls():
             if t["callee"] == INTERP and b.deff != INTERP and b.j.get("closure_root") != INTERP:
                 # a closure of a function is that function evaluating (e.g. `.map(|x| interpret(x, ..))` inside map's evaluate)
-                callers.add(b.j.get("closure_root") if b.kind == "closure" and b.j.get("closure_root") else b.deff)
+                who = b.j.get("closure_root") if b.kind == "closure" and b.j.get("closure_root") else b.deff
+                if who not in known and who.startswith("interpreter::") and only_called_by_interpret(who):
+                    continue
+                # a closure of a helper that was inlined belongs to the functions the helper was inlined into
+                own = lib.owners(b) - {INTERP}
+                callers |= own if (who not in known) else {who}
     allowed = {"Expression::<'a>::search"} | {f"<functions::{x} as functions::Function>::evaluate" for x in ("MapFn", "SortByFn", "MaxByFn", "MinByFn")}
     ctx.check(callers == allowed, "context-flow", "who-may-evaluate", f"interpret is called only from search and the four expression-reference builtins (found extra {sorted(callers - allowed)}, missing {sorted(allowed - callers)})")
     # parser side
